@@ -19,7 +19,12 @@ def _load():
     here = os.path.dirname(os.path.abspath(__file__))
     for f in sorted(glob.glob(os.path.join(here, "p_c*.py"))):
         name = os.path.basename(f)[:-3]
-        mod = importlib.import_module(name)
+        try:
+            mod = importlib.import_module(name)
+        except Exception as e:  # a broken plug-in must not take the other checks down
+            import sys
+            print("props: cannot load %s: %s" % (name, e), file=sys.stderr)
+            continue
         pid = name[2:].upper()
         PROPS[pid] = mod.CONFIG
         MODS[pid] = mod
